@@ -41,8 +41,12 @@ func (k msgServer) WithdrawFeeRefund(ctx context.Context, msg *types.MsgWithdraw
 		}
 		remainder = remainder.Add(fraction)
 	} else {
+		// the fee payers are recorded under the first round of a dispute; its outcome is that of its last round
+		if latest, err := k.GetDisputeByReporter(sdk.UnwrapSDKContext(ctx), dispute.InitialEvidence, dispute.DisputeCategory); err == nil {
+			dispute = latest
+		}
 		// check if vote executed
-		vote, err := k.Votes.Get(ctx, msg.Id)
+		vote, err := k.Votes.Get(ctx, dispute.DisputeId)
 		if err != nil {
 			return nil, err
 		}
@@ -51,22 +55,25 @@ func (k msgServer) WithdrawFeeRefund(ctx context.Context, msg *types.MsgWithdraw
 			return nil, errors.New("vote not executed")
 		}
 
-		feeMinusBurn := dispute.SlashAmount.Sub(dispute.BurnAmount)
+		// the fees of further rounds are part of fee total and burn amount but not of what the first round's payers share
+		roundFees := dispute.FeeTotal.Sub(dispute.SlashAmount)
+		firstRoundFees := dispute.FeeTotal.Sub(roundFees)
+		feeMinusBurn := dispute.SlashAmount.Sub(dispute.BurnAmount.Sub(roundFees))
 		switch vote.VoteResult {
 		case types.VoteResult_INVALID, types.VoteResult_NO_QUORUM_MAJORITY_INVALID:
-			fraction, err := k.RefundDisputeFee(ctx, feePayer, payerInfo, dispute.FeeTotal, feeMinusBurn, dispute.HashId)
+			fraction, err := k.RefundDisputeFee(ctx, feePayer, payerInfo, firstRoundFees, feeMinusBurn, dispute.HashId)
 			if err != nil {
 				return nil, err
 			}
 			remainder = remainder.Add(fraction)
 		case types.VoteResult_SUPPORT, types.VoteResult_NO_QUORUM_MAJORITY_SUPPORT:
-			fraction, err := k.RefundDisputeFee(ctx, feePayer, payerInfo, dispute.FeeTotal, feeMinusBurn, dispute.HashId)
+			fraction, err := k.RefundDisputeFee(ctx, feePayer, payerInfo, firstRoundFees, feeMinusBurn, dispute.HashId)
 			if err != nil {
 				return nil, err
 			}
 
 			remainder = remainder.Add(fraction)
-			fraction, err = k.RewardReporterBondToFeePayers(ctx, feePayer, payerInfo, dispute.FeeTotal, dispute.SlashAmount)
+			fraction, err = k.RewardReporterBondToFeePayers(ctx, feePayer, payerInfo, firstRoundFees, dispute.SlashAmount)
 			if err != nil {
 				return nil, err
 			}
